@@ -160,7 +160,7 @@ Hypothesis Inv : ViewInv st.
 
 Lemma ext_simple : forall o,
   match o with
-  | OCtor _ _ _ _ | ODvCtor _ _ _ | OSlice _ _ _ | OSubarray _ _ _ | OBufSlice _ _ _ => True
+  | OCtor _ _ _ _ | ODvCtor _ _ _ | OSlice _ _ _ | OSubarray _ _ _ | OBufSlice _ _ _ | OCtorFrom _ _ => True
   | _ => ext st (fst (fst (step m st o)))
   end.
 Proof.
@@ -341,6 +341,59 @@ Proof.
   eapply ext_trans; [exact E|]. apply (ext_add_buf st2).
 Qed.
 
+Lemma le_bytes_length : forall n z, length (le_bytes n z) = n.
+Proof. induction n; intros; simpl; auto. Qed.
+
+Lemma conv_chunk_length : forall k e, length (conv_chunk m k e) = nbytes k.
+Proof.
+  intros k e. unfold conv_chunk, num_to_raw.
+  destruct (raw_bits m k (pv_of_elt e)); simpl.
+  - unfold order. destruct true; rewrite ?rev_length; apply le_bytes_length.
+  - apply repeat_length.
+Qed.
+
+Lemma concat_chunks_length : forall k (f : Z -> elt) idxs,
+  Z.of_nat (length (concat (map (fun i => conv_chunk m k (f i)) idxs))) = Z.of_nat (length idxs) * esize k.
+Proof.
+  intros k f idxs. induction idxs as [|i r IH]; cbn [map concat length]; [reflexivity|].
+  rewrite app_length, conv_chunk_length. unfold nbytes. pose proof (esize_pos k).
+  rewrite Nat2Z.inj_add, Nat2Z.inj_succ, IH, Z2Nat.id by lia. ring.
+Qed.
+
+Lemma seqZ_length : forall n lo, length (seqZ lo n) = n.
+Proof. induction n; intros; simpl; auto. Qed.
+
+Lemma kind_eqb_eq : forall a b, kind_eqb a b = true -> a = b.
+Proof. destruct a, b; simpl; intros H; try discriminate H; reflexivity. Qed.
+
+Lemma ctorfrom_inv : forall k sv, ViewInv (fst (fst (op_ctorfrom m st k sv))).
+Proof.
+  intros k sv. unfold op_ctorfrom, with_view, fail.
+  destruct (nth_error (views st) sv) as [src|] eqn:Hv; [|exact Inv].
+  pose proof (proj1 Inv sv src Hv) as Hok.
+  destruct (is_det st (v_buf src)); [exact Inv|].
+  destruct (negb _); [exact Inv|].
+  cbn [fst].
+  set (bs := if kind_eqb (v_kind src) k then _ else _).
+  change (mkSt (bufs st ++ [mkBuf bs false]) (views st ++ [mkView (length (bufs st)) 0 (v_len src) k]) (dviews st))
+    with (add_view (add_buf st (mkBuf bs false)) (mkView (length (bufs st)) 0 (v_len src) k)).
+  apply inv_add_view; [eapply inv_ext; [apply ext_add_buf|exact Inv]|].
+  unfold view_ok. cbn [v_off v_len v_kind v_buf]. rewrite mlen_add_buf_new. unfold blen. cbn [b_bytes].
+  destruct Hok as (Ho & Hl & Hal & Hb).
+  pose proof (esize_pos k) as Hp.
+  assert (Hlen : Z.of_nat (length bs) = v_len src * esize k).
+  { unfold bs. destruct (kind_eqb (v_kind src) k) eqn:Ek.
+    - apply kind_eqb_eq in Ek. subst k.
+      unfold rd_buf. rewrite (addr_val m st src _ (conj Ho (conj Hl (conj Hal Hb)))).
+      rewrite mlen_getb in Hb.
+      assert (0 <= v_len src * esize (v_kind src)) by nia.
+      destruct (getb st (v_buf src)) as [x|].
+      + apply rd_length; lia.
+      + assert (v_len src = 0) by nia. simpl. nia.
+    - rewrite concat_chunks_length, seqZ_length. lia. }
+  repeat split; try lia.
+Qed.
+
 Theorem inv_step_here : forall o, ViewInv (fst (fst (step m st o))).
 Proof.
   intros o. pose proof (ext_simple o) as H.
@@ -350,6 +403,7 @@ Proof.
   - apply slice_inv.
   - apply subarray_inv.
   - apply bufslice_inv.
+  - apply ctorfrom_inv.
 Qed.
 
 End Step.
